@@ -313,6 +313,8 @@ class Facts:
         self.fns = {}
         self.consts = {}
         self.adts = {}
+        self.foreign_adts = {}
+        self.foreign_methods = {}
         self.impls = []
         self.traits = {}
         self.statics = []
@@ -334,6 +336,10 @@ class Facts:
                 self.consts.setdefault(cd["path"], cd)
             for a in d["adts"]:
                 self.adts[a["path"]] = a
+            for a in d.get("foreign_adts") or []:
+                self.foreign_adts.setdefault(a["path"], a)
+            for a in d.get("foreign_methods") or []:
+                self.foreign_methods.setdefault(a["path"], set()).update(a["methods"])
             for i in d["impls"]:
                 i["crate"] = c
                 self.impls.append(i)
@@ -350,20 +356,49 @@ class Facts:
 
     # ---------- lookup ----------
     # ---------------- helper inlining (robustness against "extract function" refactorings) ----------------
-    def inlinable(self, caller, callee_path, vocab=()):
-        """A call is spliced when the callee is a small, non-recursive workspace function that is private to the caller's
-        file (a helper), and its name is not one the calling rule reasons about by name."""
+    def inlinable(self, caller, callee_path, vocab=(), sites=2):
+        """A call is spliced when the callee is a non-recursive workspace function that is private to the caller's file
+        (a helper), and its name is not one the calling rule reasons about by name.  Size bound: 40 blocks, or 300 blocks
+        when the caller has a single call site of it (a function that was merely split in two)."""
         g = self.fns.get(callee_path)
         if g is None or g is caller or g.kind not in ("Fn", "AssocFn"):
             return None
-        if g.name in vocab or g.file != caller.file or len(g.blocks) > 40:
+        if g.name in vocab or g.file != caller.file or len(g.blocks) > (300 if sites == 1 else 40):
             return None
         if g.vis == "pub" or g.impl_trait:
             return None
         return g
 
+    # Option/Result combinators applied to a closure literal: callee path -> (adt, variants, matched variant, wrap variant)
+    COMBINATORS = {
+        "std::option::Option::<T>::map": ("std::option::Option", ("None", "Some"), "Some", "Some"),
+        "std::option::Option::<T>::and_then": ("std::option::Option", ("None", "Some"), "Some", None),
+        "std::result::Result::<T, E>::map": ("std::result::Result", ("Ok", "Err"), "Ok", "Ok"),
+        "std::result::Result::<T, E>::and_then": ("std::result::Result", ("Ok", "Err"), "Ok", None),
+        "std::result::Result::<T, E>::map_err": ("std::result::Result", ("Ok", "Err"), "Err", "Err"),
+    }
+
+    def _closure_of_operand(self, d, op):
+        """the closure function whose literal is the (only) definition of the local an operand moves"""
+        if not isinstance(op, dict) or op.get("k") not in ("move", "copy") or op["p"][1]:
+            return None
+        loc = op["p"][0]
+        found = []
+        for blk in d["blocks"]:
+            for st in blk["s"]:
+                if st[0] == "=" and st[1][0] == loc and not st[1][1]:
+                    found.append(st[2])
+        if len(found) != 1 or found[0].get("k") != "agg" or found[0].get("agg") != "closure":
+            return None
+        g = self.fns.get(found[0]["closure"])
+        if g is None or g.arg_count != 2 or len(g.blocks) > 40:
+            return None
+        return g
+
     def inlined(self, f, vocab=(), depth=2):
-        """A copy of function f with calls to private same-file helpers spliced into its MIR (bounded depth)."""
+        """A copy of function f with calls to private same-file helpers spliced into its MIR (bounded depth), and with
+        `opt.map(|x| ..)`, `opt.and_then(|x| ..)`, `res.map(..)`, `res.and_then(..)`, `res.map_err(..)` on a closure literal
+        lowered to the `match` they abbreviate (so a rule sees the same shape whichever spelling the code uses)."""
         key = (f.path, tuple(sorted(vocab)), depth)
         cache = self.__dict__.setdefault("_inl_cache", {})
         if key in cache:
@@ -380,7 +415,15 @@ class Facts:
                 if t["k"] != "call" or "path" not in t["f"] or t.get("target") is None:
                     continue
                 cal = t["f"].get("res") or t["f"]["path"]
-                g = self.inlinable(f, cal, vocab)
+                comb = self.COMBINATORS.get(t["f"]["path"]) if t["f"].get("name") not in vocab and len(t["args"]) == 2 else None
+                recv = t["args"][0] if comb else None
+                g = None
+                if comb and isinstance(recv, dict) and recv.get("k") in ("move", "copy"):
+                    g = self._closure_of_operand(d, t["args"][1])
+                if g is None:
+                    comb = None
+                    n_sites = sum(1 for bb in blocks if bb["t"]["k"] == "call" and (bb["t"]["f"].get("res") or bb["t"]["f"].get("path")) == cal)
+                    g = self.inlinable(f, cal, vocab, n_sites)
                 if g is None or cal == f.path:
                     continue
                 if any((tt["t"]["k"] == "call" and (tt["t"]["f"].get("res") or tt["t"]["f"].get("path")) == cal) for tt in g.blocks):
@@ -424,16 +467,69 @@ class Facts:
                             stm.append(copy.deepcopy(st))
                     tt = gb["t"]
                     if tt["k"] == "return":
-                        stm.append(["=", copy.deepcopy(t["dest"]), {"k": "use", "a": {"k": "move", "p": [off, []]}}, line, False])
+                        if comb and comb[3]:
+                            stm.append(["=", copy.deepcopy(t["dest"]), {"k": "agg", "agg": "adt", "adt": comb[0], "variant": comb[3], "fields": ["0"],
+                                                                         "ops": [{"k": "move", "p": [off, []]}]}, line, False])
+                        else:
+                            stm.append(["=", copy.deepcopy(t["dest"]), {"k": "use", "a": {"k": "move", "p": [off, []]}}, line, False])
                         nt = {"k": "goto", "target": t["target"]}
                     else:
                         nt = sh(tt)
-                    newb.append({"s": stm, "t": nt, "cleanup": gb.get("cleanup", False)})
-                # the call site: bind the arguments, jump into the spliced body
-                for k_, a_ in enumerate(t["args"]):
-                    blocks[b]["s"].append(["=", [off + k_ + 1, []], {"k": "use", "a": copy.deepcopy(a_)}, line, False])
-                blocks[b]["t"] = {"k": "goto", "target": nb0}
+                    newb.append({"s": stm, "t": nt, "cleanup": gb.get("cleanup", False), "origin": gb.get("origin") or g.path})
+                if comb:
+                    # match recv { Matched(x) => Wrap(closure(x)), Other(y) => Other(y) }
+                    adt, variants, matched, _wrap = comb
+                    other = variants[0] if variants[1] == matched else variants[1]
+                    rp = recv["p"]
+                    dl = len(d["locals"])
+                    d["locals"] = list(d["locals"]) + ["isize"]
+                    b_some = nb0 + len(newb)
+                    b_other = b_some + 1
+                    blocks[b]["s"].append(["=", [off + 1, []], {"k": "use", "a": copy.deepcopy(t["args"][1])}, line, False])
+                    blocks[b]["s"].append(["=", [dl, []], {"k": "discr", "p": [rp[0], list(rp[1]), "?"], "adt": adt,
+                                                          "variants": [[str(i), v] for i, v in enumerate(variants)]}, line, False])
+                    blocks[b]["t"] = {"k": "switch", "discr": {"k": "move", "p": [dl, []]}, "targets": [[str(variants.index(matched)), b_some]],
+                                      "otherwise": b_other, "line": line}
+                    newb.append({"s": [["=", [off + 2, []], {"k": "use", "a": {"k": recv["k"], "p": [rp[0], list(rp[1]) + ["@" + matched, ".0"], "?"]}}, line, False]],
+                                 "t": {"k": "goto", "target": nb0}, "cleanup": False})
+                    if adt == "std::option::Option":
+                        oth = {"k": "agg", "agg": "adt", "adt": adt, "variant": other, "fields": [], "ops": []}
+                    else:
+                        oth = {"k": "agg", "agg": "adt", "adt": adt, "variant": other, "fields": ["0"],
+                               "ops": [{"k": recv["k"], "p": [rp[0], list(rp[1]) + ["@" + other, ".0"], "?"]}]}
+                    newb.append({"s": [["=", copy.deepcopy(t["dest"]), oth, line, False]], "t": {"k": "goto", "target": t["target"]}, "cleanup": False})
+                    d.setdefault("lowered_closures", []).append(g.path)
+                else:
+                    # the call site: bind the arguments, jump into the spliced body
+                    for k_, a_ in enumerate(t["args"]):
+                        blocks[b]["s"].append(["=", [off + k_ + 1, []], {"k": "use", "a": copy.deepcopy(a_)}, line, False])
+                    blocks[b]["t"] = {"k": "goto", "target": nb0}
+                # error exits of the spliced body are error exits of the caller when the call's result goes straight into `?`
+                cont = blocks[t["target"]] if isinstance(t.get("target"), int) and t["target"] < len(blocks) else None
+                ct = cont["t"] if cont else None
+                if ct and ct["k"] == "call" and ct["f"].get("name") == "branch" and ct["f"].get("trait") == "std::ops::Try" and ct["args"] \
+                        and ct["args"][0].get("k") in ("move", "copy"):
+                    src = ct["args"][0]["p"]
+                    dst = t["dest"]
+                    via = {src[0]} if not src[1] else set()
+                    for st in cont["s"]:
+                        if st[0] == "=" and st[1][0] in via and not st[1][1] and st[2].get("k") == "use" and st[2]["a"].get("k") in ("move", "copy"):
+                            via.add(st[2]["a"]["p"][0])
+                    if dst[0] in via and not dst[1]:
+                        errs = d.setdefault("inlined_error_blocks", [])
+                        if not (comb and comb[3]):
+                            for gi, gb in enumerate(g.blocks):
+                                is_err = any(st[0] == "=" and st[1][0] == 0 and not st[1][1] and st[2].get("k") == "agg"
+                                             and st[2].get("variant") in ("Err", "None") for st in gb["s"])
+                                gt = gb["t"]
+                                if gt["k"] == "call" and gt["f"].get("name") == "from_residual" and gt["dest"][0] == 0:
+                                    is_err = True
+                                if is_err:
+                                    errs.append(nb0 + gi)
+                        if comb and comb[2] in ("Some", "Ok"):
+                            errs.append(nb0 + len(newb) - 1)
                 blocks.extend(newb)
+                d.setdefault("inlined_helpers", []).append(g.path)
                 did = changed = True
             if not did:
                 break
@@ -442,14 +538,53 @@ class Facts:
             return f
         nf = Fn(d, f.crate)
         nf.inlined_from = f
+        nf.lowered_closures = tuple(d.get("lowered_closures") or ())
+        nf.inlined_helpers = tuple(d.get("inlined_helpers") or ())
         cache[key] = nf
         return nf
 
     def fn(self, path):
-        return self.fns.get(path)
+        """The function with this def path.  If it is not there (e.g. it was moved to another module), fall back to the
+        unique non-closure function of the same crate whose last two path segments (`Type::name` / `module::name`, generic
+        arguments ignored) are the same; ambiguous or absent -> None (the caller reports the missing anchor)."""
+        f = self.fns.get(path)
+        if f is not None or path.startswith("<"):
+            return f
+        cache = self.__dict__.setdefault("_tail_index", None)
+        if cache is None:
+            cache = {}
+            for p_, g in self.fns.items():
+                if g.kind == "Closure" or p_.startswith("<") or "{closure" in p_:
+                    continue
+                cache.setdefault(self._tail(p_), []).append(g)
+            self.__dict__["_tail_index"] = cache
+        crate = path.split("::", 1)[0]
+        cands = [g for g in cache.get(self._tail(path), []) if g.path.split("::", 1)[0] == crate]
+        if len(cands) == 1:
+            return cands[0]
+        tail = self._tail(path).split("::")
+        if not cands and len(tail) == 2 and tail[0][:1].islower():
+            # a free function whose module was renamed or which moved to another module: unique by name among free functions
+            by_name = self.__dict__.setdefault("_free_by_name", None)
+            if by_name is None:
+                by_name = {}
+                for p_, g in self.fns.items():
+                    if g.kind == "Fn" and not p_.startswith("<") and "{closure" not in p_:
+                        by_name.setdefault(g.name, []).append(g)
+                self.__dict__["_free_by_name"] = by_name
+            c2 = [g for g in by_name.get(tail[1], []) if g.path.split("::", 1)[0] == crate]
+            if len(c2) == 1:
+                return c2[0]
+        return None
+
+    @staticmethod
+    def _tail(path):
+        import re as _re
+        segs = [x for x in _re.sub(r"::<[^>]*>", "", path).split("::") if x]
+        return "::".join(segs[-2:])
 
     def need_fn(self, path):
-        f = self.fns.get(path)
+        f = self.fn(path)
         if f is None:
             raise AnchorMissing("function", path)
         return f
@@ -469,6 +604,16 @@ class Facts:
                     m[(f.impl_trait, f.name)].append(f)
             self._impl_methods = m
         return self._impl_methods
+
+    def call_names_deep(self, f, vocab=()):
+        """names of the calls in f, in the private helpers spliced into it, and in the closures of all of these"""
+        fi = self.inlined(f, vocab)
+        names = [cs.name for cs in fi.calls()]
+        owners = [f] + [self.fns[p] for p in getattr(fi, "inlined_helpers", ()) if p in self.fns]
+        for o in owners:
+            for c in self.closures_of(o):
+                names += [cs.name for cs in c.calls()]
+        return names
 
     def closures_of(self, fn):
         pre = fn.path + "::{closure#"
@@ -885,6 +1030,8 @@ def project1(t, p):
                 return ops[int(name)]
         if t[0] == "tuple" and name.isdigit() and int(name) < len(t[1]):
             return t[1][int(name)]
+        if t[0] == "closure" and name.isdigit() and int(name) < len(t[2]):
+            return t[2][int(name)]
         if t[0] == "as" and t[1][0] == "adt" and t[1][2] == t[2]:
             return project1(t[1], p)
         if t[0] == "phi":
